@@ -5,7 +5,69 @@ VLQ_REDIRECT = ["-redirect", SM + "encodeVLQ=" + SM + "zzVLQOpaque"]
 
 LX = "github.com/xjslang/xjs/lexer."
 
+H = "github.com/xjslang/xjs/zzverif/h."
+GEN_Q = {"budget": 2, "stmts": 2, "atoms": 1, "maxlist": 1}
+GEN_T = {"budget": 3, "stmts": 2, "atoms": 1, "maxlist": 1}
+GEN_ATOMS_Q = {"budget": 1, "stmts": 2, "atoms": 4, "maxlist": 2}
+GEN_ATOMS_T = {"budget": 2, "stmts": 1, "atoms": 8, "maxlist": 2}
+GEN_ASSUME = [
+    "programs: every syntax tree of the subset within the node budget (internal nodes <= 'budget', <= 'stmts' top-level statements, lists <= 'maxlist' elements, 'atoms' atom kinds), produced by the generator of DESIGN.md §4.2; tree shape, separators and parenthesisation explored exhaustively by forking",
+    "solver-quantified per path: operator identity inside each ECMAScript precedence class, every line-break flag ECMAScript permits, all token positions (0..2^20)",
+    "the lexer is replaced by a scripted token source installed through the public UseTokenInterceptor extension point (token level); the text-to-token relation is C10's step lemma",
+]
+SCRIPT_ASSUME = [
+    "token buffers: one of 27 concrete parser contexts (DESIGN.md §7 C11) followed by <= T tokens of arbitrary built-in type (solver-quantified, 45 types), arbitrary after-newline flags and positions, then EOF forever",
+    "instruction budget per path = unwinding assertion (2,000,000 instructions, call depth 300): exceeding it is reported as inconclusive, never as a pass",
+    "literal text of scripted tokens is \"1\" (numeric validation succeeds); invalid numeric literals are outside this run",
+]
+
 CHECKS = {
+    "C02": {
+        "assumptions": GEN_ASSUME + ["expected tree: built by the generator with its own copy of the ECMAScript precedence levels, ASI rules and restricted productions; grouping nodes are ignored in the comparison"],
+        "runs": [
+            {"harnesses": [H + "ZZH2Parse"], "flags": VLQ_REDIRECT, "quick": GEN_Q, "thorough": GEN_T},
+            {"harnesses": [H + "ZZH2Parse"], "flags": VLQ_REDIRECT, "quick": GEN_ATOMS_Q, "thorough": GEN_ATOMS_T},
+        ],
+    },
+    "C11": {
+        "assumptions": SCRIPT_ASSUME,
+        "runs": [
+            {"harnesses": [H + "ZZH11Total"], "flags": VLQ_REDIRECT, "quick": {"T": 2}, "thorough": {"T": 3}},
+        ],
+    },
+    "C12": {
+        "assumptions": GEN_ASSUME + [
+            "corruptions decided without a reference parser: (a) truncation at any point where a bracket, paren or brace is open, (b) deletion of any single bracket, paren or brace, (c) removal of the separator and line break between two statements where an operand token is followed by an operand/keyword token; each of these is rejected by every ECMAScript parser (unbalanced delimiters / two operands in a row on one line)",
+            "general single-token deletion (needs a reference recogniser to decide which results are still valid JavaScript) and truncation inside string literals are outside this check",
+            "positions concrete: token i at line 0, column 2i; 'no earlier than the last intact token' is compared on them",
+        ],
+        "runs": [
+            {"harnesses": [H + "ZZH12Truncate", H + "ZZH12DeleteDelimiter"], "flags": VLQ_REDIRECT,
+             "quick": dict(GEN_Q, stmts=1), "thorough": dict(GEN_Q, stmts=2)},
+            {"harnesses": [H + "ZZH12Fuse"], "flags": VLQ_REDIRECT, "quick": GEN_Q, "thorough": GEN_T},
+            {"harnesses": [H + "ZZH12Truncate", H + "ZZH12DeleteDelimiter", H + "ZZH12Fuse"], "flags": VLQ_REDIRECT,
+             "quick": dict(GEN_Q, stmts=2, budget=1, smart=1), "thorough": dict(GEN_Q, stmts=2, smart=1)},
+        ],
+    },
+    "C13": {
+        "assumptions": SCRIPT_ASSUME + GEN_ASSUME + [
+            "fused statements: only where an operand token is followed by an operand/keyword token (the successor cannot continue the predecessor)",
+            "open blocks: any number of trailing block-closing braces dropped at end of input",
+        ],
+        "runs": [
+            {"harnesses": [H + "ZZH13aTolerant", H + "ZZH13cSmart"], "flags": VLQ_REDIRECT, "quick": {"T": 2}, "thorough": {"T": 3}},
+            {"harnesses": [H + "ZZH13bTolerantExtras", H + "ZZH13dSmartBreaks"], "flags": VLQ_REDIRECT, "quick": GEN_Q, "thorough": GEN_T},
+        ],
+    },
+    "C16": {
+        "assumptions": SCRIPT_ASSUME + GEN_ASSUME + [
+            "directly inside a function body either FunctionContext or BlockContext is accepted as the innermost context (the body is both)",
+        ],
+        "runs": [
+            {"harnesses": [H + "ZZH16bFinal"], "flags": VLQ_REDIRECT, "quick": {"T": 2}, "thorough": {"T": 3}},
+            {"harnesses": [H + "ZZH16aNesting"], "flags": VLQ_REDIRECT, "quick": GEN_Q, "thorough": GEN_T},
+        ],
+    },
     "C10": {
         "assumptions": [
             "one NextToken step from an arbitrary cursor state satisfying the invariant INV (readPosition = position+1, CurrentChar = input[position] or 0 at the end, Line/Column arbitrary in [0,2^30]); stale hadNewlineBefore/leadingComments arbitrary",
@@ -39,7 +101,29 @@ CHECKS = {
     },
 }
 
+_TRUST = "Trusted: xsym's SSA translation (witness paths replayed natively on every run), z3 (z3 5.1 and cvc5 re-decide assertion queries in the thorough tier), the generator/oracle in harness/overlay/zzverif/h. Token level: the scripted token source stands for the lexer (C10 relates text to tokens). Outside the claim: programs above the node/token budget."
+
 META = {
+    "C02": {
+        "text": "Bounded symbolic model checking of the real parser on every generated subset program within the node budget: the program is unparsed to a token script in which operator identities (per precedence class), all permitted line breaks and all positions are solver variables, parsed by the real parser, and the resulting tree must equal the generated tree (ECMAScript precedence, associativity, ASI boundaries, restricted productions) on every feasible path.",
+        "design_ref": "DESIGN.md §7 C02", "note": _TRUST,
+    },
+    "C11": {
+        "text": "Bounded symbolic model checking of ParseProgram on arbitrary token buffers (27 parser contexts x <= 2/3 tokens of solver-quantified type, flags and positions) in all four mode combinations (modes are solver variables): termination within the instruction budget, no panic, error value iff error list non-empty, no nil or typed-nil entries in statement lists, every error range is a token range, and error-free trees have all mandatory children and compile in four configurations without panicking.",
+        "design_ref": "DESIGN.md §7 C11", "note": _TRUST,
+    },
+    "C12": {
+        "text": "Bounded symbolic model checking of strict-mode error detection on generated valid programs corrupted by truncation inside an open bracket/block, deletion of a single delimiter, or removal of a statement separator between operands: strict parsing must report an error and the first error must not lie before the last intact token.",
+        "design_ref": "DESIGN.md §7 C12", "note": _TRUST + " Invalidity of the corrupted text is by construction (unbalanced delimiters, adjacent operands), not by a reference parser; general single-token deletions and unterminated literals are outside this check.",
+    },
+    "C13": {
+        "text": "Bounded symbolic model checking of the parser modes: on arbitrary token buffers strict-accepted implies tolerant returns the identical tree with no errors, and smart mode equals default mode (tree and errors) when no line-initial ( or [ occurs; on generated programs tolerant mode accepts fused statements and open blocks keeping every statement, and smart mode treats a line-initial ( or [ as a statement start.",
+        "design_ref": "DESIGN.md §7 C13", "note": _TRUST,
+    },
+    "C16": {
+        "text": "Bounded symbolic model checking of the parsing-context stack: on every generated program (nested blocks, function declarations and expressions) every statement/expression interceptor invocation sees IsInFunction/CurrentContext equal to the generator's nesting oracle for the current token; on arbitrary token buffers in every mode the context is back at top level with a balanced stack after parsing.",
+        "design_ref": "DESIGN.md §7 C16", "note": _TRUST,
+    },
     "C10": {
         "text": "Inductive bounded symbolic model checking of the real lexer: one NextToken step is executed from an arbitrary valid cursor state over a window of K = 6 (quick) / 8 (thorough) symbolic bytes of any value (all 256^K windows, end of input anywhere). On every feasible path the solver discharges: start = first non-trivia byte (independent trivia scanner), progress, cursor inside the source, EOF exactly at the end and stable, end position, after-newline flag, comment texts, identifier/keyword/number slices and classification, and re-establishment of the cursor invariant - which makes the result hold for any number of tokens.",
         "design_ref": "DESIGN.md §7 C10",
